@@ -24,7 +24,7 @@ from ..sim import fs_tree as T
 
 ID = "C05"
 READY = True
-LEAN_TARGETS = ["NauyacaVerif.Props.C05", "NauyacaVerif.Props.Translated"]
+LEAN_TARGETS = ["NauyacaVerif.Props.C05", "NauyacaVerif.Props.Tr.CanonicalPath"]
 THEOREMS = [f"NauyacaVerif.C05.{t}" for t in (
     "c05_core", "c05_refuses", "same_canonical_path", "c05_static", "c05_static_listing", "c05_statement_fails",
     "decision_table", "lines_tie", "policy_first_match", "toml_rules_faithful", "toml_absent")]
